@@ -22,7 +22,7 @@ MoreOps == {"median_tuple", "median_list_skipna", "sum_tuple", "argmax_tuple", "
             "dataset_construct", "dataset_construct_misaligned", "ds_take", "ds_mean", "ds_take_axis", "ds_sort_axis", "ds_reindex_axis",
             "ds_interp_axis", "ds_add", "ds_set_axis_copy", "ds_rename_axes_copy", "ds_rename_keys_copy", "ds_copy_then_mutate", "ds_stack", "ds_concatenate",
             "concatenate_axis_metadata", "ds_reduce_axis", "to_json_nonjson_metadata", "ds_copy_then_relabel_rename", "reshape_indexed_group", "reshape_regroup", "flatten_indexed_group", "unflatten_partial",
-            "set_axis_copy_all_keywords", "axis_set_copy",
+            "set_axis_copy_all_keywords", "axis_set_copy", "percentile_all_axes",
             "copy_then_set_values", "copy_then_relabel", "copy_then_rename", "copy_then_mutate_attrs", "copy_then_mutate_nested_attrs", "mutate_original_after_copy"}
 Configs == {"plain", "siblings"}
 Init == in = <<>> /\ ph = 0
